@@ -543,6 +543,9 @@ func mergeSimpleRanges(srs []simpleRange) []simpleRange {
 }
 
 func (s *server) ReadRows(req *btpb.ReadRowsRequest, stream btpb.Bigtable_ReadRowsServer) error {
+	if err := validateFilterEagerly(req.Filter); err != nil {
+		return err
+	}
 	s.mu.Lock()
 	tbl, ok := s.tables[req.TableName]
 	s.mu.Unlock()
@@ -1075,6 +1078,9 @@ func (s *server) MutateRows(req *btpb.MutateRowsRequest, stream btpb.Bigtable_Mu
 }
 
 func (s *server) CheckAndMutateRow(ctx context.Context, req *btpb.CheckAndMutateRowRequest) (*btpb.CheckAndMutateRowResponse, error) {
+	if err := validateFilterEagerly(req.PredicateFilter); err != nil {
+		return nil, err
+	}
 	s.mu.Lock()
 	tbl, ok := s.tables[req.TableName]
 	s.mu.Unlock()
@@ -1739,3 +1745,84 @@ type byDescTS []*btpb.Cell
 func (b byDescTS) Len() int           { return len(b) }
 func (b byDescTS) Swap(i, j int)      { b[i], b[j] = b[j], b[i] }
 func (b byDescTS) Less(i, j int) bool { return b[i].TimestampMicros > b[j].TimestampMicros }
+
+// validateFilterEagerly rejects a filter with any invalid node before a single row is looked at
+// (evaluation alone only meets the nodes some cell of some row reaches, so an invalid filter was
+// accepted on an empty table, on an absent row, or behind a sub-filter that lets nothing through).
+func validateFilterEagerly(f *btpb.RowFilter) error {
+	if f == nil {
+		return nil
+	}
+	bad := func(format string, a ...interface{}) error { return status.Errorf(codes.InvalidArgument, format, a...) }
+	switch x := f.Filter.(type) {
+	case *btpb.RowFilter_BlockAllFilter:
+		if !x.BlockAllFilter {
+			return bad("block_all_filter must be true if set")
+		}
+	case *btpb.RowFilter_PassAllFilter:
+		if !x.PassAllFilter {
+			return bad("pass_all_filter must be true if set")
+		}
+	case *btpb.RowFilter_Chain_:
+		if len(x.Chain.Filters) < 2 {
+			return bad("Chain must contain at least two RowFilters")
+		}
+		for _, s := range x.Chain.Filters {
+			if err := validateFilterEagerly(s); err != nil {
+				return err
+			}
+		}
+	case *btpb.RowFilter_Interleave_:
+		if len(x.Interleave.Filters) < 2 {
+			return bad("Interleave must contain at least two RowFilters")
+		}
+		for _, s := range x.Interleave.Filters {
+			if err := validateFilterEagerly(s); err != nil {
+				return err
+			}
+		}
+	case *btpb.RowFilter_Condition_:
+		for _, s := range []*btpb.RowFilter{x.Condition.PredicateFilter, x.Condition.TrueFilter, x.Condition.FalseFilter} {
+			if err := validateFilterEagerly(s); err != nil {
+				return err
+			}
+		}
+	case *btpb.RowFilter_RowKeyRegexFilter:
+		if _, err := newRegexp(x.RowKeyRegexFilter); err != nil {
+			return bad("bad regex: %v", err)
+		}
+	case *btpb.RowFilter_FamilyNameRegexFilter:
+		if _, err := newRegexp([]byte(x.FamilyNameRegexFilter)); err != nil {
+			return bad("bad regex: %v", err)
+		}
+	case *btpb.RowFilter_ColumnQualifierRegexFilter:
+		if _, err := newRegexp(x.ColumnQualifierRegexFilter); err != nil {
+			return bad("bad regex: %v", err)
+		}
+	case *btpb.RowFilter_ValueRegexFilter:
+		if _, err := newRegexp(x.ValueRegexFilter); err != nil {
+			return bad("bad regex: %v", err)
+		}
+	case *btpb.RowFilter_RowSampleFilter:
+		if x.RowSampleFilter <= 0 || x.RowSampleFilter >= 1 {
+			return bad("row_sample_filter must be in (0,1)")
+		}
+	case *btpb.RowFilter_CellsPerRowLimitFilter:
+		if x.CellsPerRowLimitFilter < 0 {
+			return bad("negative count")
+		}
+	case *btpb.RowFilter_CellsPerRowOffsetFilter:
+		if x.CellsPerRowOffsetFilter < 0 {
+			return bad("negative count")
+		}
+	case *btpb.RowFilter_CellsPerColumnLimitFilter:
+		if x.CellsPerColumnLimitFilter < 0 {
+			return bad("negative count")
+		}
+	case *btpb.RowFilter_TimestampRangeFilter:
+		if x.TimestampRangeFilter.GetStartTimestampMicros()%1000 != 0 || x.TimestampRangeFilter.GetEndTimestampMicros()%1000 != 0 {
+			return bad("timestamp bounds must be whole milliseconds")
+		}
+	}
+	return nil
+}
